@@ -58,7 +58,10 @@ def main():
         sys.stdout.flush()
     caught = sum(1 for r in results.values() if r.get("caught"))
     print("caught %d / %d" % (caught, len(results)))
-    json.dump(results, open(os.path.join(ROOT, "seeded", "RESULTS_%s.json" % tier), "w"), indent=1)
+    rp = os.path.join(ROOT, "seeded", "RESULTS_%s.json" % tier)
+    allres = json.load(open(rp)) if os.path.exists(rp) else {}
+    allres.update(results)
+    json.dump(allres, open(rp, "w"), indent=1, sort_keys=True)
 
 
 if __name__ == "__main__":
